@@ -25,6 +25,7 @@ import (
 	"testing"
 	"time"
 
+	runtimechannelid "github.com/WuKongIM/WuKongIM/pkg/protocol/channelid"
 	"pgregory.net/rapid"
 	"verif.local/kit"
 )
@@ -42,6 +43,7 @@ const (
 	verifC29KindAuthFail
 	verifC29KindEmptyPayload
 	verifC29KindNoPersist
+	verifC29KindDenied // the Authorizer port refuses the send
 )
 
 type verifC29Item struct {
@@ -51,18 +53,45 @@ type verifC29Item struct {
 	From    string `json:"from"`
 	CNo     string `json:"cno"`
 	Payload string `json:"payload"`
+	// Sync marks a persistent sync_once send: the client names channel Ch, the
+	// durable message lives on the command channel of Ch (the Router routes it
+	// there and prepare rewrites the command).
+	Sync bool `json:"sync,omitempty"`
+	// AuthUS is the latency of the Authorizer port for this item (prepare runs
+	// outside the writer lock; a slow prepare is part of the schedule space).
+	AuthUS int `json:"auth_us,omitempty"`
+}
+
+// chanName is the canonical channel the durable message of the item lives on.
+func (it verifC29Item) chanName() string {
+	return verifC29StoreChannel(it.Ch, it.Sync)
+}
+
+func verifC29StoreChannel(ch int, cmd bool) string {
+	if cmd {
+		return runtimechannelid.ToCommandChannel(verifC29ChannelName(ch))
+	}
+	return verifC29ChannelName(ch)
 }
 
 const (
 	verifC29ModeRouter = iota
 	verifC29ModeLocal
+	// verifC29ModeFence: the caller switches the durable write fence of one
+	// canonical channel on or off (environment state shared by the authority
+	// resolver and the Appender, as both derive it from the channel metadata).
+	verifC29ModeFence
 )
 
 type verifC29Call struct {
 	Mode    int              `json:"mode"`
-	Ch      int              `json:"ch"` // local mode: the one target channel
+	Ch      int              `json:"ch"`            // local / fence mode: the one target channel
+	Cmd     bool             `json:"cmd,omitempty"` // local / fence mode: the target is the command channel of Ch
+	FenceOn bool             `json:"fence_on,omitempty"`
 	Subs    [][]verifC29Item `json:"subs"`
+	GapsUS  []int            `json:"gaps_us,omitempty"` // local mode: pause before the i-th pipelined submission
 	PauseUS int              `json:"pause_us"`
+	Retry   bool             `json:"retry,omitempty"` // the call re-sends the caller's previous send call
 }
 
 type verifC29Caller struct {
@@ -99,6 +128,7 @@ type verifC29Params struct {
 	HandoffCap  int              `json:"handoff_cap"`
 	Fenced      []bool           `json:"fenced"`      // consumed per resolve
 	LookupErrs  []bool           `json:"lookup_errs"` // consumed per lookup
+	LookupUS    []int            `json:"lookup_us,omitempty"` // latency of the idempotency port, consumed per lookup
 	StopAt      int              `json:"stop_at"`     // -1: no early stop; else before the n-th call
 	StopShort   bool             `json:"stop_short"`  // early stop uses an already expired deadline
 	Callers     []verifC29Caller `json:"callers"`
@@ -112,15 +142,38 @@ func (p verifC29Params) limited() bool {
 func verifC29ChannelName(i int) string { return fmt.Sprintf("g%d", i) }
 
 // verifC29Gen draws a workload. stopBias raises the share of cases with an
-// early Stop (used by C41).
+// early Stop (used by C41; that variant draws no sync_once sends and no write
+// fences so that the C41 oracle keeps reading plain channel names).
 func verifC29Gen(rt *rapid.T, stopBias bool) verifC29Params {
+	return verifC29GenShape(rt, stopBias, false)
+}
+
+// verifC29GenShape: forceBurst draws only the pipelined-burst shape.
+func verifC29GenShape(rt *rapid.T, stopBias bool, forceBurst bool) verifC29Params {
 	p := verifC29Params{}
 	// clean: no injected fault, no conflicting key reuse, default limits, no
 	// early stop -- the cases in which every valid send must succeed
 	clean := rapid.IntRange(0, 3).Draw(rt, "clean") == 0
+	// durable write fences switched by the callers between their sends; half of
+	// these cases are otherwise undisturbed so that "an acknowledged send retried
+	// behind a fence returns the original" can be judged
+	fenceCalls := !stopBias && rapid.IntRange(0, 2).Draw(rt, "fenceCalls") == 0
+	if fenceCalls && rapid.Bool().Draw(rt, "fenceClean") {
+		clean = true
+	}
+	// burst: few channels, pipelined SubmitLocal submissions with small gaps,
+	// slow prepare ports and slow appends -- submissions arrive while the
+	// writer is preparing an earlier batch and an append is in flight
+	burst := rapid.IntRange(0, 3).Draw(rt, "burst") == 0 || forceBurst
 	p.Channels = rapid.IntRange(1, 4).Draw(rt, "channels")
+	if burst && p.Channels > 1 {
+		p.Channels = 1 + p.Channels/4 // mostly one channel
+	}
 	p.Shards = rapid.IntRange(1, 3).Draw(rt, "shards")
 	p.AdvancePool = rapid.IntRange(1, 4).Draw(rt, "advancePool")
+	if burst && p.AdvancePool == 1 && rapid.IntRange(0, 3).Draw(rt, "burstPool") > 0 {
+		p.AdvancePool = 2
+	}
 	p.EffectPool = rapid.IntRange(1, 4).Draw(rt, "effectPool")
 	limits := rapid.IntRange(0, 5).Draw(rt, "limits")
 	if clean {
@@ -132,7 +185,11 @@ func verifC29Gen(rt *rapid.T, stopBias bool) verifC29Params {
 	case 1:
 		p.Admission = rapid.IntRange(1, 3).Draw(rt, "admission")
 	}
-	switch rapid.IntRange(0, 3).Draw(rt, "coalesce") {
+	coalesce := rapid.IntRange(0, 3).Draw(rt, "coalesce")
+	if burst && coalesce > 1 && rapid.Bool().Draw(rt, "burstNoCoalesce") {
+		coalesce = 0
+	}
+	switch coalesce {
 	case 0:
 		p.CoalesceUS = -1
 	case 1:
@@ -160,34 +217,74 @@ func verifC29Gen(rt *rapid.T, stopBias bool) verifC29Params {
 			p.LookupErrs = append(p.LookupErrs, rapid.IntRange(0, 3).Draw(rt, "lookupErr") == 0)
 		}
 	}
+	// slow ports on the prepare path (Authorizer per item, idempotency lookup per call)
+	slowPrepare := burst || rapid.IntRange(0, 2).Draw(rt, "slowPrepare") == 0
+	authPct := 0
+	if slowPrepare {
+		authPct = rapid.SampledFrom([]int{15, 35, 60}).Draw(rt, "authPct")
+		if burst {
+			authPct += 25
+		}
+		for i := 0; i < 16; i++ {
+			us := 0
+			if rapid.IntRange(0, 2).Draw(rt, "lookupSlow") == 0 {
+				us = rapid.IntRange(30, 600).Draw(rt, "lookupUS")
+			}
+			p.LookupUS = append(p.LookupUS, us)
+		}
+	}
+	// share of persistent sync_once sends (stored on the command channel)
+	syncPct := rapid.SampledFrom([]int{0, 0, 25, 60}).Draw(rt, "syncPct")
+	if fenceCalls && syncPct == 0 {
+		syncPct = rapid.SampledFrom([]int{0, 40, 100}).Draw(rt, "syncPctFence")
+	}
+	if stopBias {
+		syncPct = 0
+	}
 
 	// idempotency-key space: small => many retries / conflicts
 	users := rapid.IntRange(1, 3).Draw(rt, "users")
 	keySpace := rapid.SampledFrom([]int{2, 4, 8, 64}).Draw(rt, "keySpace")
+	if burst && keySpace < 8 {
+		keySpace = 64 // mostly fresh sends: the order clause speaks about those
+	}
 	conflictPct := rapid.SampledFrom([]int{0, 0, 10, 30}).Draw(rt, "conflictPct")
 	if clean {
 		conflictPct = 0
 	}
 	invalidPct := rapid.SampledFrom([]int{0, 10, 25}).Draw(rt, "invalidPct")
 	nextID := 0
-	drawItem := func(ch int, allowOddKinds bool) verifC29Item {
-		it := verifC29Item{ID: nextID, Ch: ch}
+	drawAuth := func() int {
+		if authPct == 0 || rapid.IntRange(0, 99).Draw(rt, "authRoll") >= authPct {
+			return 0
+		}
+		if rapid.IntRange(0, 2).Draw(rt, "authLong") == 0 {
+			return rapid.IntRange(300, 1200).Draw(rt, "authLongUS")
+		}
+		return rapid.IntRange(30, 300).Draw(rt, "authUS")
+	}
+	drawItem := func(ch int, sync bool, allowOddKinds bool) verifC29Item {
+		it := verifC29Item{ID: nextID, Ch: ch, Sync: sync}
 		nextID++
 		it.From = fmt.Sprintf("u%d", rapid.IntRange(0, users-1).Draw(rt, "from"))
 		roll := rapid.IntRange(0, 99).Draw(rt, "kindRoll")
 		switch {
-		case allowOddKinds && roll < invalidPct/3:
+		case allowOddKinds && roll < invalidPct/4:
 			it.Kind = verifC29KindAuthFail
 			it.From = ""
 			it.CNo = fmt.Sprintf("c%d", rapid.IntRange(0, keySpace-1).Draw(rt, "cno"))
 			it.Payload = fmt.Sprintf("a|%d", it.ID)
-		case allowOddKinds && roll < 2*invalidPct/3:
+		case allowOddKinds && roll < 2*invalidPct/4:
 			it.Kind = verifC29KindEmptyPayload
 			it.CNo = fmt.Sprintf("c%d", rapid.IntRange(0, keySpace-1).Draw(rt, "cno"))
-		case allowOddKinds && roll < invalidPct:
+		case allowOddKinds && roll < 3*invalidPct/4 && !sync:
 			it.Kind = verifC29KindNoPersist
 			it.CNo = fmt.Sprintf("c%d", rapid.IntRange(0, keySpace-1).Draw(rt, "cno"))
 			it.Payload = fmt.Sprintf("n|%d", it.ID)
+		case allowOddKinds && roll < invalidPct:
+			it.Kind = verifC29KindDenied
+			it.CNo = fmt.Sprintf("c%d", rapid.IntRange(0, keySpace-1).Draw(rt, "cno"))
+			it.Payload = fmt.Sprintf("d|%d", it.ID)
 		case roll < invalidPct+20:
 			it.Kind = verifC29KindUnkeyed
 			it.Payload = fmt.Sprintf("u|%d", it.ID)
@@ -198,41 +295,150 @@ func verifC29Gen(rt *rapid.T, stopBias bool) verifC29Params {
 			if rapid.IntRange(0, 99).Draw(rt, "variantRoll") < conflictPct {
 				variant = 1
 			}
+			// the same (sender, client number, payload) may be sent to a channel
+			// and, as sync_once, to its command channel: idempotency is per channel
 			it.Payload = fmt.Sprintf("k|%d|%s|%s|%d", ch, it.From, it.CNo, variant)
 		}
+		it.AuthUS = drawAuth()
 		return it
+	}
+	drawSync := func() bool {
+		return syncPct > 0 && rapid.IntRange(0, 99).Draw(rt, "syncRoll") < syncPct
+	}
+	// resend copies a send call: same keys and payloads, fresh item ids (what a
+	// client does when the acknowledgement of its batch did not arrive)
+	resend := func(prev verifC29Call) verifC29Call {
+		call := verifC29Call{Mode: prev.Mode, Ch: prev.Ch, Cmd: prev.Cmd, Retry: true}
+		for _, sub := range prev.Subs {
+			var items []verifC29Item
+			for _, it := range sub {
+				it.ID = nextID
+				nextID++
+				switch it.Kind {
+				case verifC29KindUnkeyed:
+					it.Payload = fmt.Sprintf("u|%d", it.ID)
+				case verifC29KindAuthFail:
+					it.Payload = fmt.Sprintf("a|%d", it.ID)
+				case verifC29KindNoPersist:
+					it.Payload = fmt.Sprintf("n|%d", it.ID)
+				case verifC29KindDenied:
+					it.Payload = fmt.Sprintf("d|%d", it.ID)
+				}
+				it.AuthUS = drawAuth()
+				items = append(items, it)
+			}
+			call.Subs = append(call.Subs, items)
+		}
+		return call
+	}
+	drawGaps := func(n int) []int {
+		gapMode := rapid.IntRange(0, 3).Draw(rt, "gapMode")
+		if !burst && gapMode != 0 {
+			return nil
+		}
+		gaps := make([]int, n)
+		for i := range gaps {
+			switch rapid.IntRange(0, 3).Draw(rt, "gapKind") {
+			case 0:
+			case 1:
+				gaps[i] = rapid.IntRange(1, 60).Draw(rt, "gapShortUS")
+			default:
+				gaps[i] = rapid.IntRange(60, 500).Draw(rt, "gapUS")
+			}
+		}
+		return gaps
 	}
 
 	nCallers := rapid.IntRange(2, 6).Draw(rt, "callers")
+	if burst {
+		nCallers = 2 + nCallers%2
+	}
 	totalCalls := 0
+	fenceOns := map[string]int{}
 	for c := 0; c < nCallers; c++ {
 		var caller verifC29Caller
 		nCalls := rapid.IntRange(1, 4).Draw(rt, "calls")
+		if burst && nCalls > 2 {
+			nCalls = 2
+		}
+		lastSend := -1
+		retryNext := false
 		for j := 0; j < nCalls; j++ {
 			call := verifC29Call{}
-			if rapid.IntRange(0, 3).Draw(rt, "mode") == 0 {
-				call.Mode = verifC29ModeLocal
-				call.Ch = rapid.IntRange(0, p.Channels-1).Draw(rt, "localCh")
-				nSubs := rapid.IntRange(1, 4).Draw(rt, "subs")
-				for s := 0; s < nSubs; s++ {
-					n := rapid.IntRange(1, 5).Draw(rt, "subItems")
+			kind := rapid.IntRange(0, 9).Draw(rt, "callKind")
+			if retryNext {
+				kind = 2 // the send before the fence is retried behind it
+				retryNext = false
+			}
+			switch {
+			case fenceCalls && kind < 2:
+				// prefer a channel this caller just sent to
+				call.Mode = verifC29ModeFence
+				call.Ch = rapid.IntRange(0, p.Channels-1).Draw(rt, "fenceCh")
+				call.Cmd = drawSync()
+				if lastSend >= 0 && rapid.IntRange(0, 3).Draw(rt, "fenceOwn") > 0 {
+					prev := caller.Calls[lastSend]
+					sub := prev.Subs[rapid.IntRange(0, len(prev.Subs)-1).Draw(rt, "fenceSub")]
+					it := sub[rapid.IntRange(0, len(sub)-1).Draw(rt, "fenceItem")]
+					call.Ch, call.Cmd = it.Ch, it.Sync
+				}
+				name := verifC29StoreChannel(call.Ch, call.Cmd)
+				// at most two activations per channel: a routed send can lose at most
+				// two of its three route attempts to a fence raised behind its resolve
+				call.FenceOn = fenceOns[name] < 2 && rapid.IntRange(0, 3).Draw(rt, "fenceOn") > 0
+				if call.FenceOn {
+					fenceOns[name]++
+					if lastSend >= 0 && rapid.IntRange(0, 3).Draw(rt, "fenceThenRetry") > 0 {
+						retryNext = true
+						if j == nCalls-1 {
+							nCalls++
+						}
+					}
+				}
+			case lastSend >= 0 && kind >= 2 && kind < 4:
+				call = resend(caller.Calls[lastSend])
+				if call.Mode == verifC29ModeLocal {
+					call.GapsUS = drawGaps(len(call.Subs))
+				}
+			default:
+				local := rapid.IntRange(0, 3).Draw(rt, "mode") == 0
+				if burst {
+					local = rapid.IntRange(0, 4).Draw(rt, "burstMode") > 0
+				}
+				if local {
+					call.Mode = verifC29ModeLocal
+					call.Ch = rapid.IntRange(0, p.Channels-1).Draw(rt, "localCh")
+					call.Cmd = drawSync()
+					nSubs := rapid.IntRange(1, 4).Draw(rt, "subs")
+					maxItems := 5
+					if burst {
+						nSubs = rapid.IntRange(4, 10).Draw(rt, "burstSubs")
+						maxItems = 2
+					}
+					for s := 0; s < nSubs; s++ {
+						n := rapid.IntRange(1, maxItems).Draw(rt, "subItems")
+						var items []verifC29Item
+						for i := 0; i < n; i++ {
+							items = append(items, drawItem(call.Ch, call.Cmd, true))
+						}
+						call.Subs = append(call.Subs, items)
+					}
+					call.GapsUS = drawGaps(nSubs)
+				} else {
+					call.Mode = verifC29ModeRouter
+					n := rapid.IntRange(1, 8).Draw(rt, "batchItems")
 					var items []verifC29Item
 					for i := 0; i < n; i++ {
-						items = append(items, drawItem(call.Ch, true))
+						items = append(items, drawItem(rapid.IntRange(0, p.Channels-1).Draw(rt, "ch"), drawSync(), true))
 					}
-					call.Subs = append(call.Subs, items)
+					call.Subs = [][]verifC29Item{items}
 				}
-			} else {
-				call.Mode = verifC29ModeRouter
-				n := rapid.IntRange(1, 8).Draw(rt, "batchItems")
-				var items []verifC29Item
-				for i := 0; i < n; i++ {
-					items = append(items, drawItem(rapid.IntRange(0, p.Channels-1).Draw(rt, "ch"), true))
-				}
-				call.Subs = [][]verifC29Item{items}
 			}
 			if rapid.IntRange(0, 3).Draw(rt, "pause") == 0 {
 				call.PauseUS = rapid.IntRange(1, 300).Draw(rt, "pauseUS")
+			}
+			if call.Mode != verifC29ModeFence {
+				lastSend = len(caller.Calls)
 			}
 			caller.Calls = append(caller.Calls, call)
 			totalCalls++
@@ -247,6 +453,9 @@ func verifC29Gen(rt *rapid.T, stopBias bool) verifC29Params {
 	for ch := 0; ch < p.Channels; ch++ {
 		var behs []verifC29Beh
 		n := rapid.IntRange(0, 10).Draw(rt, "behs")
+		if burst {
+			n = 10
+		}
 		for i := 0; i < n; i++ {
 			b := verifC29Beh{}
 			if faultMode != 0 {
@@ -268,6 +477,8 @@ func verifC29Gen(rt *rapid.T, stopBias bool) verifC29Params {
 			}
 			if rapid.IntRange(0, 2).Draw(rt, "slowB") == 0 {
 				b.BeforeUS = rapid.IntRange(1, 500).Draw(rt, "beforeUS")
+			} else if burst && rapid.IntRange(0, 3).Draw(rt, "slowBurst") > 0 {
+				b.BeforeUS = rapid.IntRange(300, 2000).Draw(rt, "beforeBurstUS")
 			}
 			if rapid.IntRange(0, 3).Draw(rt, "slowA") == 0 {
 				b.AfterUS = rapid.IntRange(1, 500).Draw(rt, "afterUS")
@@ -318,7 +529,23 @@ type verifC29AppendCall struct {
 	Outcome  string           `json:"outcome"`
 	Seqs     []uint64         `json:"seqs"`
 	StartTik int64            `json:"start_tick"`
+	EndTik   int64            `json:"end_tick"`
 	CtxErr   string           `json:"ctx_err,omitempty"`
+}
+
+// verifC29FenceEvent is one executed switch of a channel's durable write fence.
+type verifC29FenceEvent struct {
+	Channel string `json:"channel"`
+	On      bool   `json:"on"`
+	Tick    int64  `json:"tick"`
+}
+
+// verifC29AuthSpan is one call of the Authorizer port (prepare of one item).
+type verifC29AuthSpan struct {
+	Channel string `json:"channel"`
+	Item    int    `json:"item"`
+	Start   int64  `json:"start"`
+	End     int64  `json:"end"`
 }
 
 type verifC29ChanStore struct {
@@ -344,6 +571,12 @@ type verifC29Store struct {
 	lookupErrored bool
 	conflictSeen  bool
 	recoveryHit   bool // an idempotency lookup found a committed row with a matching payload
+	// durable write fence per canonical channel (environment state; switched by
+	// the callers' fence calls, read by the authority resolver and the Appender)
+	fenced        map[string]bool
+	fenceLog      []verifC29FenceEvent
+	fenceRejected bool // an append was refused because the channel was write-fenced
+	authSpans     []verifC29AuthSpan
 	blockGate     chan struct{}
 	gateOnce      sync.Once
 }
@@ -375,6 +608,22 @@ func verifC29Sleep(us int) {
 		return
 	}
 	time.Sleep(time.Duration(us) * time.Microsecond)
+}
+
+func (s *verifC29Store) setFence(name string, on bool) {
+	s.mu.Lock()
+	if s.fenced == nil {
+		s.fenced = map[string]bool{}
+	}
+	s.fenced[name] = on
+	s.fenceLog = append(s.fenceLog, verifC29FenceEvent{Channel: name, On: on, Tick: s.clock.Add(1)})
+	s.mu.Unlock()
+}
+
+func (s *verifC29Store) isFenced(name string) bool {
+	s.mu.Lock()
+	defer s.mu.Unlock()
+	return s.fenced[name]
 }
 
 func (s *verifC29Store) chanStore(name string) *verifC29ChanStore {
@@ -446,9 +695,18 @@ func (s *verifC29Store) AppendBatch(ctx context.Context, req AppendBatchRequest)
 	}
 	finish := func(outcome string, res AppendBatchResult, err error) (AppendBatchResult, error) {
 		call.Outcome = outcome
+		call.EndTik = s.clock.Add(1)
 		s.mu.Unlock()
 		verifC29Sleep(beh.AfterUS)
 		return res, err
+	}
+	if s.fenced[name] {
+		// the durable channel refuses new writes while its metadata carries a
+		// write fence (pkg/channel reactor: ErrWriteFenced at append admission,
+		// before anything is stored; internal/infra/cluster maps it to
+		// ErrRouteNotReady). Not an injected fault: the fence is environment state.
+		s.fenceRejected = true
+		return finish("write_fenced", AppendBatchResult{}, fmt.Errorf("%w: verif: channel write fenced", ErrRouteNotReady))
 	}
 	switch beh.Kind {
 	case verifC29BehFailBefore:
@@ -504,6 +762,11 @@ func (s *verifC29Store) LookupSend(ctx context.Context, q IdempotencyQuery) (Sen
 	defer s.mu.Unlock()
 	n := s.lookups
 	s.lookups++
+	if n < len(s.p.LookupUS) && s.p.LookupUS[n] > 0 {
+		s.mu.Unlock()
+		verifC29Sleep(s.p.LookupUS[n])
+		s.mu.Lock()
+	}
 	if n < len(s.p.LookupErrs) && s.p.LookupErrs[n] {
 		s.lookupErrored = true
 		s.anyFault = true
@@ -532,14 +795,42 @@ type verifC29IDs struct{ n atomic.Uint64 }
 
 func (a *verifC29IDs) Next() uint64 { return a.n.Add(1) + 1000 }
 
-type verifC29Resolver struct {
-	p *verifC29Params
-	n atomic.Int64
+// verifC29Auth is the Authorizer port: drawn latency per item, refusal of the
+// items of kind Denied, and a record of every call (who prepared what, when).
+type verifC29Auth struct {
+	st    *verifC29Store
+	items map[uint64]verifC29Item // by ClientSeq
 }
 
+func (a *verifC29Auth) AuthorizeSend(_ context.Context, cmd SendCommand) (Decision, error) {
+	it, ok := a.items[cmd.ClientSeq]
+	if !ok {
+		return Decision{Allowed: true, Reason: ReasonSuccess}, nil
+	}
+	start := a.st.clock.Add(1)
+	verifC29Sleep(it.AuthUS)
+	span := verifC29AuthSpan{Channel: it.chanName(), Item: it.ID, Start: start, End: a.st.clock.Add(1)}
+	a.st.mu.Lock()
+	a.st.authSpans = append(a.st.authSpans, span)
+	a.st.mu.Unlock()
+	if it.Kind == verifC29KindDenied {
+		return Decision{Allowed: false, Reason: ReasonNotAllowSend}, nil
+	}
+	return Decision{Allowed: true, Reason: ReasonSuccess}, nil
+}
+
+type verifC29Resolver struct {
+	p  *verifC29Params
+	st *verifC29Store
+	n  atomic.Int64
+}
+
+// ResolveAppendAuthority reports the channel's current durable write fence;
+// the drawn Fenced list additionally makes single resolves report a fence the
+// store does not have (a stale view of the metadata).
 func (r *verifC29Resolver) ResolveAppendAuthority(_ context.Context, id ChannelID) (AuthorityTarget, error) {
 	n := int(r.n.Add(1) - 1)
-	return verifC29Target(id.ID, n < len(r.p.Fenced) && r.p.Fenced[n]), nil
+	return verifC29Target(id.ID, (n < len(r.p.Fenced) && r.p.Fenced[n]) || r.st.isFenced(id.ID)), nil
 }
 
 func verifC29Target(name string, fenced bool) AuthorityTarget {
@@ -591,7 +882,9 @@ type verifC29SubRecord struct {
 	Mode      int            `json:"mode"`
 	Items     []verifC29Item `json:"items"`
 	StartTick int64          `json:"start_tick"`
-	EndTick   int64          `json:"end_tick"`
+	EndTick   int64          `json:"end_tick"`  // the submitting call returned (local mode: the batch was accepted)
+	DoneTick  int64          `json:"done_tick"` // the results were in the caller's hands
+	Fenced    bool           `json:"fenced,omitempty"` // local mode: the target carried WriteFenced
 	SubmitErr string         `json:"submit_err,omitempty"`
 	SubmitCls string         `json:"submit_class,omitempty"`
 	Results   []verifC29Res  `json:"results"`
@@ -618,6 +911,8 @@ type verifC29History struct {
 	MaxInflight map[string]int                 `json:"max_inflight"`
 	Post        []verifC29PostEvent            `json:"post"`
 	Stops       []verifC29StopRecord           `json:"stops"`
+	Fences      []verifC29FenceEvent           `json:"fences,omitempty"`
+	AuthSpans   []verifC29AuthSpan             `json:"auth_spans,omitempty"`
 	FinalStop   string                         `json:"final_stop"`
 	Hung        string                         `json:"hung,omitempty"` // "", "quiescent", "busy"
 	Flags       map[string]bool                `json:"flags"`
@@ -679,6 +974,7 @@ func verifC29Command(it verifC29Item) SendCommand {
 	if it.Kind == verifC29KindNoPersist {
 		cmd.NoPersist = true
 	}
+	cmd.SyncOnce = it.Sync
 	return cmd
 }
 
@@ -733,6 +1029,17 @@ func verifC29Run(p verifC29Params, blockAppends bool) *verifC29History {
 		AdmissionCapacityPerShard:   p.Admission,
 		PostCommitHandoffCapacity:   p.HandoffCap,
 	}
+	auth := &verifC29Auth{st: st, items: map[uint64]verifC29Item{}}
+	for _, c := range p.Callers {
+		for _, call := range c.Calls {
+			for _, sub := range call.Subs {
+				for _, it := range sub {
+					auth.items[uint64(it.ID+1)] = it
+				}
+			}
+		}
+	}
+	opts.Authorizer = auth
 	switch {
 	case p.CoalesceUS < 0:
 		opts.InboxCoalesceWindow = -1
@@ -750,7 +1057,7 @@ func verifC29Run(p verifC29Params, blockAppends bool) *verifC29History {
 		h.FinalStop = "start failed: " + err.Error()
 		return h
 	}
-	router := NewRouter(RouterOptions{LocalNodeID: verifC29LocalNode, Resolver: &verifC29Resolver{p: &p}, Local: g})
+	router := NewRouter(RouterOptions{LocalNodeID: verifC29LocalNode, Resolver: &verifC29Resolver{p: &p, st: st}, Local: g})
 
 	caseCtx, cancelCase := context.WithCancel(context.Background())
 	defer cancelCase()
@@ -826,6 +1133,10 @@ func verifC29Run(p verifC29Params, blockAppends bool) *verifC29History {
 					earlyStop()
 				}
 				verifC29Sleep(call.PauseUS)
+				if call.Mode == verifC29ModeFence {
+					st.setFence(verifC29StoreChannel(call.Ch, call.Cmd), call.FenceOn)
+					continue
+				}
 				if call.Mode == verifC29ModeRouter {
 					rec := &verifC29SubRecord{Caller: ci, Call: cj, Mode: call.Mode, Items: call.Subs[0]}
 					items := make([]SendBatchItem, len(rec.Items))
@@ -835,6 +1146,7 @@ func verifC29Run(p verifC29Params, blockAppends bool) *verifC29History {
 					rec.StartTick = clock.Add(1)
 					res := router.SendBatch(items)
 					rec.EndTick = clock.Add(1)
+					rec.DoneTick = rec.EndTick
 					rec.Results = verifC29ToRes(res)
 					histMu.Lock()
 					h.Subs = append(h.Subs, rec)
@@ -843,14 +1155,20 @@ func verifC29Run(p verifC29Params, blockAppends bool) *verifC29History {
 				}
 				// pipelined SubmitLocal: submit every batch first, then wait
 				recs := make([]*verifC29SubRecord, len(call.Subs))
+				target := verifC29StoreChannel(call.Ch, call.Cmd)
 				for si, sub := range call.Subs {
+					if si < len(call.GapsUS) {
+						verifC29Sleep(call.GapsUS[si])
+					}
 					rec := &verifC29SubRecord{Caller: ci, Call: cj, Sub: si, Mode: call.Mode, Items: sub}
 					items := make([]SendBatchItem, len(sub))
 					for i, it := range sub {
 						items[i] = SendBatchItem{Context: caseCtx, Command: verifC29Command(it)}
 					}
 					rec.StartTick = clock.Add(1)
-					f, err := g.SubmitLocal(caseCtx, verifC29Target(verifC29ChannelName(call.Ch), false), items)
+					// the resolved target carries the fence the channel has right now
+					rec.Fenced = st.isFenced(target)
+					f, err := g.SubmitLocal(caseCtx, verifC29Target(target, rec.Fenced), items)
 					rec.EndTick = clock.Add(1)
 					if err != nil {
 						rec.SubmitErr = err.Error()
@@ -874,6 +1192,7 @@ func verifC29Run(p verifC29Params, blockAppends bool) *verifC29History {
 							rec.Results = verifC29ToRes(res)
 						}
 					}
+					rec.DoneTick = clock.Add(1)
 					histMu.Lock()
 					h.Subs = append(h.Subs, rec)
 					histMu.Unlock()
@@ -971,6 +1290,9 @@ func verifC29Run(p verifC29Params, blockAppends bool) *verifC29History {
 	h.Flags["lookup_errored"] = st.lookupErrored
 	h.Flags["conflict_seen"] = st.conflictSeen
 	h.Flags["recovery_hit"] = st.recoveryHit
+	h.Flags["fence_rejected"] = st.fenceRejected
+	h.Fences = append([]verifC29FenceEvent(nil), st.fenceLog...)
+	h.AuthSpans = append([]verifC29AuthSpan(nil), st.authSpans...)
 	st.mu.Unlock()
 	if pa != nil {
 		pa.mu.Lock()
@@ -1004,6 +1326,15 @@ type verifC29Verdict struct {
 	failures       int
 	busy           int
 	strong         bool
+	calm           bool // no injected fault, no key conflict, default limits, no early stop (write fences allowed)
+	// measured schedule / input shapes
+	ackedRetries       int // retries submitted after their original had been acknowledged
+	ackedRetriesFenced int // ... while the channel was write-fenced
+	ackedRetriesSync   int // ... fenced, of a sync_once send (command channel)
+	hbPairs            int // pairs of submissions ordered by "accepted before the other was submitted" with fresh successes on one channel
+	hbPairsCross       int // ... from two different callers
+	syncSuccess        int
+	denied             int
 }
 
 func (v *verifC29Verdict) fail(format string, args ...any) {
@@ -1013,7 +1344,7 @@ func (v *verifC29Verdict) fail(format string, args ...any) {
 }
 
 type verifC29Logical struct {
-	ch      int
+	ch      string // canonical channel (command channel for sync_once sends)
 	from    string
 	cno     string
 	payload string
@@ -1040,20 +1371,20 @@ func verifC29Judge(h *verifC29History) *verifC29Verdict {
 			if it.Kind != verifC29KindKeyed && it.Kind != verifC29KindUnkeyed {
 				continue
 			}
-			l := verifC29Logical{it.Ch, it.From, it.CNo, it.Payload}
+			l := verifC29Logical{it.chanName(), it.From, it.CNo, it.Payload}
 			count[l]++
 			if it.Kind == verifC29KindKeyed {
 				if seenInSub[l] {
 					v.dupInBatch = true
 				}
 				seenInSub[l] = true
-				k := [3]string{verifC29ChannelName(it.Ch), it.From, it.CNo}
+				k := [3]string{it.chanName(), it.From, it.CNo}
 				if keyVariants[k] == nil {
 					keyVariants[k] = map[string]bool{}
 				}
 				keyVariants[k][it.Payload] = true
 			}
-			payloadOwner[verifC29ChannelName(it.Ch)+"\x00"+it.Payload] = it
+			payloadOwner[it.chanName()+"\x00"+it.Payload] = it
 		}
 	}
 	for l, n := range count {
@@ -1092,7 +1423,7 @@ func verifC29Judge(h *verifC29History) *verifC29Verdict {
 		}
 		for i, it := range rec.Items {
 			r := rec.Results[i]
-			where := fmt.Sprintf("caller %d call %d sub %d item %d (id %d, %s %s/%s %q)", rec.Caller, rec.Call, rec.Sub, i, it.ID, verifC29ChannelName(it.Ch), it.From, it.CNo, it.Payload)
+			where := fmt.Sprintf("caller %d call %d sub %d item %d (id %d, %s %s/%s %q)", rec.Caller, rec.Call, rec.Sub, i, it.ID, it.chanName(), it.From, it.CNo, it.Payload)
 			switch r.Class {
 			case "channel_busy", "backpressured":
 				v.busy++
@@ -1116,6 +1447,15 @@ func verifC29Judge(h *verifC29History) *verifC29Verdict {
 					v.fail("%s: plain no-persist item is a pre-route success, got %+v", where, r)
 				}
 				continue
+			case verifC29KindDenied:
+				// refused by the Authorizer port before a message id is allocated:
+				// either its own refusal reason or an error of the path, never a
+				// success and never an id or sequence
+				v.denied++
+				if r.success() || r.MsgID != 0 || r.Seq != 0 || (r.Err == "" && Reason(r.Reason) != ReasonNotAllowSend) {
+					v.fail("%s: item refused by the authorizer got %+v, want reason NotAllowSend (misaligned result)", where, r)
+				}
+				continue
 			}
 			if !r.success() {
 				v.failures++
@@ -1125,7 +1465,10 @@ func verifC29Judge(h *verifC29History) *verifC29Verdict {
 				continue
 			}
 			v.successes++
-			log := h.Store[verifC29ChannelName(it.Ch)]
+			if it.Sync {
+				v.syncSuccess++
+			}
+			log := h.Store[it.chanName()]
 			if r.Seq == 0 || r.Seq > uint64(len(log)) {
 				v.fail("%s: success with seq %d but channel log has %d records", where, r.Seq, len(log))
 				continue
@@ -1139,12 +1482,12 @@ func verifC29Judge(h *verifC29History) *verifC29Verdict {
 				v.fail("%s: success (id %d, seq %d) points at a record of another send: stored %s/%s %q", where, r.MsgID, r.Seq, stored.From, stored.CNo, stored.Payload)
 				continue
 			}
-			ch := verifC29ChannelName(it.Ch)
+			ch := it.chanName()
 			if owned[ch] == nil {
 				owned[ch] = map[uint64]int{}
 			}
 			owned[ch][r.Seq]++
-			if count[verifC29Logical{it.Ch, it.From, it.CNo, it.Payload}] > 1 && it.Kind == verifC29KindKeyed {
+			if count[verifC29Logical{it.chanName(), it.From, it.CNo, it.Payload}] > 1 && it.Kind == verifC29KindKeyed {
 				v.retryHits++
 			}
 		}
@@ -1160,31 +1503,73 @@ func verifC29Judge(h *verifC29History) *verifC29Verdict {
 			storedCopies[name+"\x00"+rec.Payload]++
 		}
 	}
-	type orderKey struct{ caller, ch int }
+	type orderKey struct {
+		caller int
+		ch     string
+	}
 	last := map[orderKey]uint64{}
 	lastWhere := map[orderKey]string{}
+	// per channel: the fresh successes of every submission with its span
+	type hbEntry struct {
+		rec            *verifC29SubRecord
+		minSeq, maxSeq uint64
+	}
+	hb := map[string][]*hbEntry{}
 	for _, rec := range h.Subs { // sorted by caller, call, sub
 		if rec.SubmitErr != "" || len(rec.Results) != len(rec.Items) {
 			continue
 		}
+		entries := map[string]*hbEntry{}
 		for i, it := range rec.Items {
 			if it.Kind != verifC29KindKeyed && it.Kind != verifC29KindUnkeyed {
 				continue
 			}
 			r := rec.Results[i]
-			if !r.success() || count[verifC29Logical{it.Ch, it.From, it.CNo, it.Payload}] != 1 {
+			if !r.success() || count[verifC29Logical{it.chanName(), it.From, it.CNo, it.Payload}] != 1 {
 				continue
 			}
-			if storedCopies[verifC29ChannelName(it.Ch)+"\x00"+it.Payload] != 1 {
+			if storedCopies[it.chanName()+"\x00"+it.Payload] != 1 {
 				continue
 			}
-			k := orderKey{rec.Caller, it.Ch}
+			k := orderKey{rec.Caller, it.chanName()}
 			where := fmt.Sprintf("call %d sub %d item %d (seq %d)", rec.Call, rec.Sub, i, r.Seq)
 			if r.Seq <= last[k] {
-				v.fail("caller %d channel %s: sequences not increasing in submission order: %s then %s", rec.Caller, verifC29ChannelName(it.Ch), lastWhere[k], where)
+				v.fail("caller %d channel %s: sequences not increasing in submission order: %s then %s", rec.Caller, it.chanName(), lastWhere[k], where)
 			}
 			last[k] = r.Seq
 			lastWhere[k] = where
+			e := entries[it.chanName()]
+			if e == nil {
+				e = &hbEntry{rec: rec, minSeq: r.Seq, maxSeq: r.Seq}
+				entries[it.chanName()] = e
+				hb[it.chanName()] = append(hb[it.chanName()], e)
+			}
+			if r.Seq < e.minSeq {
+				e.minSeq = r.Seq
+			}
+			if r.Seq > e.maxSeq {
+				e.maxSeq = r.Seq
+			}
+		}
+	}
+	// 2b. submission order across callers: a submission that had been accepted
+	// (SubmitLocal / SendBatch had returned) before another one to the same
+	// channel was submitted precedes it; its fresh successes get the smaller
+	// sequences. Logical ticks taken around the calls decide "before".
+	for name, list := range hb {
+		for _, a := range list {
+			for _, b := range list {
+				if a == b || a.rec.EndTick >= b.rec.StartTick {
+					continue
+				}
+				v.hbPairs++
+				if a.rec.Caller != b.rec.Caller {
+					v.hbPairsCross++
+				}
+				if a.maxSeq >= b.minSeq {
+					v.fail("channel %s: caller %d call %d sub %d was accepted (tick %d) before caller %d call %d sub %d was submitted (tick %d), yet its sends got seq up to %d and the later submission got seq from %d", name, a.rec.Caller, a.rec.Call, a.rec.Sub, a.rec.EndTick, b.rec.Caller, b.rec.Call, b.rec.Sub, b.rec.StartTick, a.maxSeq, b.minSeq)
+				}
+			}
 		}
 	}
 
@@ -1212,7 +1597,7 @@ func verifC29Judge(h *verifC29History) *verifC29Verdict {
 			}
 			ids[m.MsgID] = true
 			if m.From != "" && m.CNo != "" {
-				l := verifC29Logical{0, m.From, m.CNo, m.Payload}
+				l := verifC29Logical{"", m.From, m.CNo, m.Payload}
 				if seen[l] {
 					v.fail("append call %d on %s: the same send (%s/%s %q) was passed to the Appender twice in one request (in-batch retry not coalesced)", c.No, c.Channel, m.From, m.CNo, m.Payload)
 				}
@@ -1289,7 +1674,17 @@ func verifC29Judge(h *verifC29History) *verifC29Verdict {
 	for _, c := range p.Callers {
 		total += len(c.Calls)
 	}
-	v.strong = !h.Flags["any_fault"] && !v.conflictItems && !p.limited() && (p.StopAt < 0 || p.StopAt >= total)
+	v.calm = !h.Flags["any_fault"] && !v.conflictItems && !p.limited() && (p.StopAt < 0 || p.StopAt >= total)
+	fenceRaised := false
+	for _, f := range h.Fences {
+		fenceRaised = fenceRaised || f.On
+	}
+	// a raised write fence legitimately refuses new sends: the "every valid
+	// send succeeds" clause needs a run without one
+	v.strong = v.calm && !fenceRaised
+	if v.calm {
+		verifC29JudgeAckedRetries(h, v)
+	}
 	if v.strong {
 		for _, rec := range h.Subs {
 			if rec.SubmitErr != "" {
@@ -1305,7 +1700,7 @@ func verifC29Judge(h *verifC29History) *verifC29Verdict {
 		for name, log := range h.Store {
 			want := 0
 			for l := range count {
-				if verifC29ChannelName(l.ch) == name {
+				if l.ch == name {
 					if l.cno == "" {
 						want += count[l]
 					} else {
@@ -1327,6 +1722,85 @@ func verifC29Judge(h *verifC29History) *verifC29Verdict {
 	return v
 }
 
+// verifC29RouteAttempts is the Router's bound on route attempts for items
+// without a deadline (RouterOptions.MaxRouteAttempts left at its default).
+const verifC29RouteAttempts = defaultRouterMaxRouteAttempts
+
+// verifC29JudgeAckedRetries: in a run without injected fault, key conflict,
+// reduced limit or early stop, a send whose original had already been
+// acknowledged as a success before the retry was submitted returns a success
+// again (clause 1 then ties it to the one stored row: the original id and
+// sequence) -- also while the channel is write-fenced: "a target already
+// observed as write-fenced performs the pre-append idempotency lookup so an
+// earlier committed retry can still bypass the new-write fence" (FLOW.md;
+// AuthorityTarget.WriteFenced). Unfenced, the store's duplicate-key rejection
+// plus the recovery lookup returns it. Left out: a retry behind whose resolve
+// the fence was raised as often as it has route attempts (SubmitLocal: one,
+// Router: three) -- its appends can all run into the fence.
+func verifC29JudgeAckedRetries(h *verifC29History, v *verifC29Verdict) {
+	acked := map[verifC29Logical]int64{}
+	for _, rec := range h.Subs {
+		if rec.SubmitErr != "" || len(rec.Results) != len(rec.Items) {
+			continue
+		}
+		for i, it := range rec.Items {
+			if it.Kind != verifC29KindKeyed || !rec.Results[i].success() {
+				continue
+			}
+			l := verifC29Logical{it.chanName(), it.From, it.CNo, it.Payload}
+			if t, ok := acked[l]; !ok || rec.DoneTick < t {
+				acked[l] = rec.DoneTick
+			}
+		}
+	}
+	for _, rec := range h.Subs {
+		if rec.SubmitErr != "" {
+			v.fail("caller %d call %d sub %d: submit rejected (%s) in a fault-free unconstrained run", rec.Caller, rec.Call, rec.Sub, rec.SubmitErr)
+			continue
+		}
+		if len(rec.Results) != len(rec.Items) {
+			continue
+		}
+		for i, it := range rec.Items {
+			if it.Kind != verifC29KindKeyed {
+				continue
+			}
+			t, ok := acked[verifC29Logical{it.chanName(), it.From, it.CNo, it.Payload}]
+			if !ok || t >= rec.StartTick {
+				continue
+			}
+			raised, fencedAtStart := 0, false
+			for _, f := range h.Fences {
+				if f.Channel != it.chanName() {
+					continue
+				}
+				if f.Tick < rec.StartTick {
+					fencedAtStart = f.On
+				} else if f.On && f.Tick < rec.DoneTick {
+					raised++
+				}
+			}
+			attempts := verifC29RouteAttempts
+			if rec.Mode == verifC29ModeLocal {
+				attempts = 1
+			}
+			if raised >= attempts {
+				continue
+			}
+			v.ackedRetries++
+			if fencedAtStart {
+				v.ackedRetriesFenced++
+				if it.Sync {
+					v.ackedRetriesSync++
+				}
+			}
+			if !rec.Results[i].success() {
+				v.fail("caller %d call %d sub %d item %d (%s %s/%s %q): the same send had been acknowledged as a success at tick %d, the retry submitted at tick %d (channel write-fenced: %v) got %+v instead of the original result", rec.Caller, rec.Call, rec.Sub, i, it.chanName(), it.From, it.CNo, it.Payload, t, rec.StartTick, fencedAtStart, rec.Results[i])
+			}
+		}
+	}
+}
+
 // verifC29Overlap reports whether a duplicate send was submitted while an
 // earlier submission of the same send had not yet returned (by logical ticks),
 // or inside the same submission.
@@ -1339,7 +1813,7 @@ func verifC29Overlap(h *verifC29History) bool {
 			if it.Kind != verifC29KindKeyed {
 				continue
 			}
-			l := verifC29Logical{it.Ch, it.From, it.CNo, ""} // same key, any payload
+			l := verifC29Logical{it.chanName(), it.From, it.CNo, ""} // same key, any payload
 			if in[l] {
 				return true
 			}
@@ -1361,6 +1835,42 @@ func verifC29Overlap(h *verifC29History) bool {
 	return false
 }
 
+// verifC29AcceptedDuringPrepare counts pipelined submissions that were accepted
+// while the writer of their channel was inside the prepare of ANOTHER
+// submission (an Authorizer call for one of its items was running) and an
+// append of that channel was in flight -- the window in which the writer can
+// neither start an append nor go idle.
+func verifC29AcceptedDuringPrepare(h *verifC29History) int {
+	n := 0
+	for _, rec := range h.Subs {
+		if rec.Mode != verifC29ModeLocal || rec.SubmitErr != "" || len(rec.Items) == 0 {
+			continue
+		}
+		name := rec.Items[0].chanName()
+		own := map[int]bool{}
+		for _, it := range rec.Items {
+			own[it.ID] = true
+		}
+		inPrepare := false
+		for _, a := range h.AuthSpans {
+			if a.Channel == name && !own[a.Item] && a.Start < rec.EndTick && rec.EndTick < a.End {
+				inPrepare = true
+				break
+			}
+		}
+		if !inPrepare {
+			continue
+		}
+		for _, c := range h.AppendCalls {
+			if c.Channel == name && c.StartTik < rec.EndTick && rec.EndTick < c.EndTik {
+				n++
+				break
+			}
+		}
+	}
+	return n
+}
+
 func verifC29Describe(p verifC29Params) string {
 	b, _ := json.Marshal(p)
 	return string(b)
@@ -1373,9 +1883,21 @@ func verifC29Fail(rt *rapid.T, prop, test string, h *verifC29History, violations
 }
 
 func TestVerifC29SendPipeline(t *testing.T) {
+	verifC29CheckPipeline(t, false)
+}
+
+// TestVerifC29PipelinedBurst spends its cases on one shape of the same
+// workload space: pipelined submissions to one or two channels arriving while
+// the writer prepares an earlier batch (slow Authorizer / idempotency ports)
+// and an append is in flight. Same runner, same oracle.
+func TestVerifC29PipelinedBurst(t *testing.T) {
+	verifC29CheckPipeline(t, true)
+}
+
+func verifC29CheckPipeline(t *testing.T, forceBurst bool) {
 	col := kit.For(t, "C29")
 	kit.Check(t, "C29", func(rt *rapid.T, k *kit.Case) {
-		p := verifC29Gen(rt, false)
+		p := verifC29GenShape(rt, false, forceBurst)
 		h := verifC29Run(p, false)
 		if h.unjoined {
 			fmt.Println("VERIF-MACHINERY: C29 harness could not join its goroutines")
@@ -1411,6 +1933,16 @@ func TestVerifC29SendPipeline(t *testing.T) {
 		k.LabelIf(p.PostCommit, "post-commit port configured")
 		k.LabelIf(len(h.Stops) > 1, "early stop")
 		k.LabelIf(v.failures > 0, "some sends failed")
+		k.LabelIf(v.calm && !v.strong, "fault-free unconstrained with a write fence raised")
+		k.LabelIf(v.ackedRetries > 0, "acknowledged send retried (must return the original)")
+		k.LabelIf(v.ackedRetriesFenced > 0, "acknowledged send retried while its channel was write-fenced")
+		k.LabelIf(v.ackedRetriesSync > 0, "acknowledged sync_once send retried while its command channel was write-fenced")
+		k.LabelIf(h.Flags["fence_rejected"], "append refused by the write fence")
+		k.LabelIf(v.syncSuccess > 0, "sync_once send stored on its command channel")
+		k.LabelIf(v.denied > 0, "send refused by the authorizer")
+		k.LabelIf(v.hbPairs > 0, "submissions ordered by accept-before-submit")
+		k.LabelIf(v.hbPairsCross > 0, "submissions of two callers ordered by accept-before-submit")
+		k.LabelIf(verifC29AcceptedDuringPrepare(h) > 0, "submission accepted during another batch's prepare with an append in flight")
 		k.Sample(func() any {
 			return fmt.Sprintf("callers=%d channels=%d successes=%d failures=%d retryHits=%d appendCalls=%d", len(p.Callers), p.Channels, v.successes, v.failures, v.retryHits, len(h.AppendCalls))
 		})
